@@ -69,18 +69,20 @@ Theorem C04_drop_respects_protocol : forall r other g,
 Proof. exact ok_replace_inner. Qed.
 Theorem C04_reserve_respects_protocol : forall r add g,
   holds g r -> settled g ->
-  okc (reserve r add) g (fun p g' => settled g' /\ holds g' (fst p) /\ (snd p = true -> holds_excl g' (fst p))).
+  okc (reserve r add) g (fun p g' => settled g' /\ holds g' (fst p) /\ (snd p = true -> holds_excl g' (fst p))
+                                     /\ cons g r g' (fst p)).
 Proof. exact ok_reserve. Qed.
 Theorem C04_ensure_modifiable_respects_protocol : forall r g,
   holds g r -> settled g ->
-  okc (ensure_modifiable r) g (fun p g' => settled g' /\ holds g' (fst p) /\ (snd p = true -> holds_excl g' (fst p))).
+  okc (ensure_modifiable r) g (fun p g' => settled g' /\ holds g' (fst p) /\ (snd p = true -> holds_excl g' (fst p))
+                                          /\ cons g r g' (fst p)).
 Proof. exact ok_ensure_modifiable. Qed.
 
 (* every other modelled reader / mutator (as_bytes, push_str, pop, truncate, remove, insert_str, retain, clear, shrink_to,
    reserve, clone-then-drop): from a held handle and nothing owed, only protocol-respecting events, ending with the
    result handle held and nothing owed *)
 Theorem C04_every_operation_respects_protocol : forall o r g,
-  holds g r -> settled g -> okc (happly o r) g (fun r' g' => settled g' /\ holds g' r').
+  holds g r -> settled g -> okc (happly o r) g (fun r' g' => settled g' /\ holds g' r' /\ cons g r g' r').
 Proof. exact ok_happly. Qed.
 
 (* ---- composition: the interleaving semantics of thread programs over the protocol machine (Compose.v).  One event of a
@@ -117,6 +119,23 @@ Example C04_example :
   /\ (exists s, Mach.run (Mach.init 2) [(0,AClone);(0,ASpawn 1 1);(1,ARelease);(0,AProbe 1)]%nat = Mach.Ok s /\ Mach.excl (Mach.getth s 0) = false).
 Proof. split; eexists; vm_compute; split; reflexivity. Qed.
 
+(* released exactly once, after the last access: in any reachable configuration in which every started thread has run
+   to completion the buffer is no longer live.  (Exactly once: a second release would be a DoubleFree step; after the
+   last access: a later access would be a use after free; both are excluded by C04_shared_handles_safe.)  The typing
+   tracks the reference counts exactly (cons: an operation changes the thread's count of a buffer exactly by the change
+   of its handle), so a thread that finishes holds nothing; the machine invariant (J9) says that a live buffer with no
+   holders has a thread that must free it. *)
+Theorem C04_all_finished_released : forall b0 kof cf,
+  WT b0 kof cf ->
+  (forall t, (t < length (tc cf))%nat -> Mach.started (Mach.getth (ms cf) t) = true -> finished (gettc b0 cf t)) ->
+  Mach.live (ms cf) = false.
+Proof. exact all_finished_released. Qed.
+Theorem C04_shared_handles_released : forall b0 l0 n opsf cf,
+  csteps b0 (cfg0 b0 l0 n opsf) cf ->
+  (forall t, (t < length (tc cf))%nat -> Mach.started (Mach.getth (ms cf) t) = true -> finished (gettc b0 cf t)) ->
+  Mach.live (ms cf) = false.
+Proof. exact shared_handles_released. Qed.
+
 (* non-vacuity of the composition: a concrete interleaving (threads alternate event by event; thread 0 pushes and reads,
    thread 1 removes, clones and drops the clone) of the two-thread instance of the programs above runs to completion:
    both threads finish and the buffer has been released (exactly once: a second release would be DoubleFree) *)
@@ -147,5 +166,7 @@ Print Assumptions C04_typed_safe.
 Print Assumptions C04_typed_progress.
 Print Assumptions C04_shared_handles_typed.
 Print Assumptions C04_shared_handles_safe.
+Print Assumptions C04_all_finished_released.
+Print Assumptions C04_shared_handles_released.
 Print Assumptions C04_example.
 Print Assumptions C04_execution_example.
